@@ -184,6 +184,10 @@ def ctrsbox_pgd(xopt, g, H, projections, delta, d_max_iters=100, d_tol=1e-10, us
 
     # Initial guess of L is norm(Hessian)
     L = np.linalg.norm(H, 2)
+    if L * delta <= ZERO_THRESH * np.linalg.norm(g):
+        # (numerically) linear model: 1/L would be inf and the step NaN for H = 0.
+        # Use the step length that reaches the trust region boundary instead.
+        L = max(np.linalg.norm(g) / delta, ZERO_THRESH)
 
     # trust region is a ball of radius delta around xopt
     trproj = lambda w: pball(w, xopt, delta)
